@@ -60,6 +60,7 @@ type Node struct {
 	byHash  map[common.Hash]*Block
 	head    *Block
 	calls   []Call
+	epoch   int // incremented by ResetCalls: a call that started before the reset does not touch the new log
 	fault   func(Call) error
 	srv     *rpc.Server
 	rpcc    *rpc.Client
@@ -227,6 +228,7 @@ func (n *Node) ResetCalls() {
 	n.mu.Lock()
 	defer n.mu.Unlock()
 	n.calls = nil
+	n.epoch++
 }
 
 // Calls returns a copy of the call log.
@@ -241,12 +243,17 @@ func (n *Node) enter(method, detail string) error {
 	n.mu.Lock()
 	c := Call{N: len(n.calls), Method: method, Detail: detail}
 	f := n.fault
+	epoch := n.epoch
 	n.calls = append(n.calls, c)
 	n.mu.Unlock()
 	if f != nil {
 		if err := f(c); err != nil {
 			n.mu.Lock()
-			n.calls[c.N].Failed = true
+			// the client may have given up (cancelled context) and the harness may have reset the
+			// log meanwhile
+			if n.epoch == epoch && c.N < len(n.calls) {
+				n.calls[c.N].Failed = true
+			}
 			n.mu.Unlock()
 			return err
 		}
